@@ -442,6 +442,23 @@ impl<Backing : AsRef<[u32]> + AsMut<[u32]>> DrawTarget<Backing> {
         &self.transform
     }
 
+    /// state that is not visible through the public API
+    #[cfg(raqote_verif)]
+    pub fn verif_state(&self) -> crate::verif::State {
+        crate::verif::State {
+            rasterizer_idle: self.rasterizer.verif_is_idle(),
+            cursor_empty: self.current_point.is_none() && self.first_point.is_none(),
+            clip_depth: self.clip_stack.len(),
+            layer_depth: self.layer_stack.len(),
+        }
+    }
+
+    /// the pixels, position, opacity and blend mode of the open layer at `depth` (0 is the outermost)
+    #[cfg(raqote_verif)]
+    pub fn verif_layer(&self, depth: usize) -> Option<(&[u32], IntRect, f32, BlendMode)> {
+        self.layer_stack.get(depth).map(|l| (&l.buf[..], l.rect, l.opacity, l.blend))
+    }
+
     fn move_to(&mut self, pt: Point) {
         self.current_point = Some(pt);
         self.first_point = Some(pt);
@@ -479,6 +496,8 @@ impl<Backing : AsRef<[u32]> + AsMut<[u32]>> DrawTarget<Backing> {
             let mut t_value = 0.;
             if valid_unit_divide(a - b, a - b - b + c, &mut t_value) {
                 let mut dst = [Point::new(0., 0.); 5];
+                #[cfg(raqote_verif)]
+                crate::verif::hit(crate::verif::ADD_QUAD_CHOPPED);
                 chop_quad_at(&curve, &mut dst, t_value);
                 flatten_double_quad_extrema(&mut dst);
                 self.rasterizer.add_edge(dst[0], dst[2], true, dst[1]);
@@ -489,6 +508,11 @@ impl<Backing : AsRef<[u32]> + AsMut<[u32]>> DrawTarget<Backing> {
             // we couldn't compute a unit_divide value (probably underflow).
             let b = if (a - b).abs() < (b - c).abs() { a } else { c };
             curve[1].y = b;
+            #[cfg(raqote_verif)]
+            crate::verif::hit(crate::verif::ADD_QUAD_FORCED);
+        } else {
+            #[cfg(raqote_verif)]
+            crate::verif::hit(crate::verif::ADD_QUAD_MONOTONIC);
         }
         self.rasterizer.add_edge(curve[0], curve[2], true, curve[1]);
     }
@@ -712,6 +736,8 @@ impl<Backing : AsRef<[u32]> + AsMut<[u32]>> DrawTarget<Backing> {
                                 iwidth as f32 == width && iheight as f32 == height;
 
         if self.transform == Transform::identity() && integer_rect && self.clip_stack.is_empty() {
+            #[cfg(raqote_verif)]
+            crate::verif::hit(crate::verif::FILL_RECT_FAST);
             let bounds = intrect(0, 0, self.width, self.height);
             // a negative width or height describes the same rectangle as the path does
             let (ix2, iy2) = (ix + iwidth, iy + iheight);
@@ -722,6 +748,8 @@ impl<Backing : AsRef<[u32]> + AsMut<[u32]>> DrawTarget<Backing> {
             };
             self.composite(src, None, irect, irect, options.blend_mode, options.alpha);
         } else {
+            #[cfg(raqote_verif)]
+            crate::verif::hit(crate::verif::FILL_RECT_PATH);
             let mut pb = PathBuilder::new();
             pb.rect(x, y, width, height);
             self.fill(&pb.finish(), src, options);
@@ -767,6 +795,8 @@ impl<Backing : AsRef<[u32]> + AsMut<[u32]>> DrawTarget<Backing> {
     pub fn clear(&mut self, solid: SolidSource) {
         let mut pb = PathBuilder::new();
         // the fast path writes the surface itself so it can't be used while a layer is open
+        #[cfg(raqote_verif)]
+        crate::verif::hit(if self.clip_stack.is_empty() && self.layer_stack.is_empty() { crate::verif::CLEAR_FAST } else { crate::verif::CLEAR_PATH });
         if self.clip_stack.is_empty() && self.layer_stack.is_empty() {
             let color = solid.to_u32();
             for pixel in self.buf.as_mut() {
@@ -953,6 +983,16 @@ impl DrawTarget {
             }
         };
 
+        #[cfg(raqote_verif)]
+        crate::verif::hit(crate::verif::BLITTER_BASE + match blitter_storage {
+            ShaderBlitterStorage::None => unreachable!(),
+            ShaderBlitterStorage::ShaderBlendMaskBlitter(_) => 0,
+            ShaderBlitterStorage::ShaderClipBlendMaskBlitter(_) => 1,
+            ShaderBlitterStorage::ShaderMaskBlitter(_) => 2,
+            ShaderBlitterStorage::ShaderClipMaskBlitter(_) => 3,
+            ShaderBlitterStorage::ShaderBlendBlitter(_) => 4,
+        });
+
         match blitter_storage {
             ShaderBlitterStorage::None => unreachable!(),
             ShaderBlitterStorage::ShaderBlendMaskBlitter(s) => s,
@@ -973,6 +1013,8 @@ impl<Backing : AsRef<[u32]> + AsMut<[u32]>> DrawTarget<Backing> {
             ti
         } else {
             // the transform is not invertible so we have nothing to draw
+            #[cfg(raqote_verif)]
+            crate::verif::hit(crate::verif::COMPOSITE_SINGULAR);
             return;
         };
 
@@ -988,8 +1030,12 @@ impl<Backing : AsRef<[u32]> + AsMut<[u32]>> DrawTarget<Backing> {
             .intersection_unchecked(&dest_bounds)
             .intersection_unchecked(&mask_rect);
         if rect.is_empty() {
+            #[cfg(raqote_verif)]
+            crate::verif::hit(crate::verif::COMPOSITE_EMPTY);
             return;
         }
+        #[cfg(raqote_verif)]
+        crate::verif::hit(crate::verif::COMPOSITE_DRAWS);
 
         let mut shader_storage = ShaderStorage::None;
         let shader = choose_shader(&ti, src, alpha, &mut shader_storage);
